@@ -23,13 +23,23 @@ type PrivDev struct {
 	Denied   int
 	// Output is what a payload line is answered with (default: one line naming the input).
 	Output func(mode, line string) string
+	// WithholdMove >= 0: after the mode change number WithholdMove (0-based, counted over the
+	// session) the device executes the line (the mode HAS changed) but does not show its prompt;
+	// the prompt only comes with the reaction to the next line. Models a device that is slow once.
+	WithholdMove int
+	Moves        int
+	withholdNow  bool
 }
 
 // NewPrivDev builds the device in mode start.
 func NewPrivDev(levels []PrivLevel, secret, start string) *PrivDev {
-	d := &PrivDev{CLI: NewCLI(), Levels: levels, Secret: secret}
+	d := &PrivDev{CLI: NewCLI(), Levels: levels, Secret: secret, WithholdMove: -1}
 	d.Mode = start
 	d.Prompt = func(c *CLI) string {
+		if d.withholdNow {
+			d.withholdNow = false
+			return ""
+		}
 		if l := d.level(c.Mode); l != nil {
 			return l.Prompt
 		}
@@ -54,7 +64,7 @@ func (d *PrivDev) handle(c *CLI, line string) string {
 		d.awaiting = ""
 		c.Hidden = false
 		if line == d.Secret {
-			c.Mode = to
+			d.move(c, to)
 			return ""
 		}
 		d.Denied++
@@ -71,18 +81,26 @@ func (d *PrivDev) handle(c *CLI, line string) string {
 				c.Hidden = true
 				return "Password: "
 			}
-			c.Mode = l.Name
+			d.move(c, l.Name)
 			return ""
 		}
 	}
 	if cur := d.level(c.Mode); cur != nil && cur.Prev != "" && cur.Deesc == line {
-		c.Mode = cur.Prev
+		d.move(c, cur.Prev)
 		return ""
 	}
 	if d.Output != nil {
 		return d.Output(c.Mode, line)
 	}
 	return "result of <" + line + ">\n"
+}
+
+func (d *PrivDev) move(c *CLI, to string) {
+	c.Mode = to
+	if d.Moves == d.WithholdMove {
+		d.withholdNow = true
+	}
+	d.Moves++
 }
 
 // ModeNow returns the current mode (takes the lock).
